@@ -274,6 +274,8 @@ def compare_answers(ctx, res, n_trees, tag):
             chain = rng.choice(sorted(CHAINS))
             hl, umn, gm = CHAINS[chain]
             cfg = pyg.make_config(st.tree.root, hl, **{"handlers.dir.DirHandler|cachetime": "0"})
+            if cfg.has_option("protocols.http.HTTPProtocol", "pagetopper"):
+                cfg.remove_option("protocols.http.HTTPProtocol", "pagetopper")      # administrator's markup: not modelled
             shipped = [s_.strip() for s_ in cfg.get("protocols.ProtocolMultiplexer", "protocols").strip()[1:-1].split(",")]
             g, t, s_tab = st.tables(cfg)
             foot = {}
@@ -285,10 +287,11 @@ def compare_answers(ctx, res, n_trees, tag):
                     q.encode("utf-8", "surrogateescape")
                 except UnicodeEncodeError:
                     continue
-                for p, gp in (("gopher", "+"), ("gopherp", "+"), ("gopherp", "!"), ("gopherp", "$"), ("gemini", "+"), ("spartan", "+"), ("http", "+")):
+                for p, gp in (("gopher", "+"), ("gopherp", "+"), ("gopherp", "!"), ("gopherp", "$"), ("gemini", "+"), ("spartan", "+"), ("http", "+"),
+                              ("http", "HEAD"), ("wap", "+"), ("wap", "HEAD"), ("https", "+")):
                     if rng.random() < 0.5:
                         continue
-                    rq = reqs.build(p, q, gplus=gp)
+                    rq = reqs.build(p, q, gplus=gp, head=(gp == "HEAD"))
                     i = rq.find(b"\n")
                     line, rest = rq[:i + 1], rq[i + 1:]
                     if b"\n" in line[:-1] or b" " in rq.split(b"\r\n")[0] and p in ("gemini",):
